@@ -31,7 +31,7 @@ for p in props:
         na.append({"property_id": pid, "reason": NA.get(pid, "check not built yet in this round (planned: DESIGN.md §5)")})
 man = {
     "version": 1,
-    "setup_cmd": "cd /verif/lean && lake build",
+    "setup_cmd": "/verif/tools/lbuild.sh",
     "hooks": {
         "guard": "JINNS_VERIF",
         "enable": "JINNS_VERIF=1 in the environment of the harness process (set by ./check)",
